@@ -31,16 +31,20 @@ def signSplit (l : I) : Option (Bool × Sci) :=
   if l.lo > 0 then some (false, ⟨l, 0⟩) else if l.hi < 0 then some (true, ⟨l.neg, 0⟩) else none
 
 theorem signSplit_sound {l : I} {v : ℝ} {tn : Bool} {t : Sci} (hv : v ∈ᵢ l)
-    (h : signSplit l = some (tn, t)) : ∃ T : ℝ, T ∈ₛ t ∧ v = if tn then -T else T := by
+    (h : signSplit l = some (tn, t)) : ∃ T : ℝ, 0 < T ∧ T ∈ₛ t ∧ v = if tn then -T else T := by
   unfold signSplit at h
   split at h
-  · simp only [Option.some.injEq, Prod.mk.injEq] at h
+  · rename_i hpos
+    simp only [Option.some.injEq, Prod.mk.injEq] at h
     obtain ⟨rfl, rfl⟩ := h
-    exact ⟨v, ⟨v, hv, by simp⟩, by simp⟩
+    have : (0 : ℝ) < (l.lo : ℝ) := by exact_mod_cast hpos
+    exact ⟨v, lt_of_lt_of_le this hv.1, ⟨v, hv, by simp⟩, by simp⟩
   · split at h
-    · simp only [Option.some.injEq, Prod.mk.injEq] at h
+    · rename_i hneg
+      simp only [Option.some.injEq, Prod.mk.injEq] at h
       obtain ⟨rfl, rfl⟩ := h
-      exact ⟨-v, ⟨-v, mem_neg hv, by simp⟩, by simp⟩
+      have : (l.hi : ℝ) < 0 := by exact_mod_cast hneg
+      exact ⟨-v, by linarith [hv.2], ⟨-v, mem_neg hv, by simp⟩, by simp⟩
     · exact absurd h (by simp)
 
 theorem ln2_inv_sound : (1 / Real.log 2) ∈ᵢ ln2.invPos :=
@@ -79,7 +83,7 @@ theorem log_call_sound {n : Bool} {c : Nat} {e : Int} {l : I} (hc0 : c ≠ 0)
 
 theorem trueValue_log_sound (n : Bool) (c : Nat) (e : Int) (tn : Bool) (t : Sci) (hc0 : c ≠ 0)
     (hok : LogOk (c : ℚ) e) (h : trueValue .log n c e = some (tn, t)) :
-    ∃ T : ℝ, T ∈ₛ t ∧ Real.log (X n c e) = if tn then -T else T := by
+    ∃ T : ℝ, 0 < T ∧ T ∈ₛ t ∧ Real.log (X n c e) = if tn then -T else T := by
   rw [trueValue_log_eq] at h
   split at h
   · exact absurd h (by simp)
@@ -88,7 +92,7 @@ theorem trueValue_log_sound (n : Bool) (c : Nat) (e : Int) (tn : Bool) (t : Sci)
 
 theorem trueValue_log2_sound (n : Bool) (c : Nat) (e : Int) (tn : Bool) (t : Sci) (hc0 : c ≠ 0)
     (hok : LogOk (c : ℚ) e) (h : trueValue .log2 n c e = some (tn, t)) :
-    ∃ T : ℝ, T ∈ₛ t ∧ Real.logb 2 (X n c e) = if tn then -T else T := by
+    ∃ T : ℝ, 0 < T ∧ T ∈ₛ t ∧ Real.logb 2 (X n c e) = if tn then -T else T := by
   rw [trueValue_log2_eq] at h
   split at h
   · exact absurd h (by simp)
@@ -99,7 +103,7 @@ theorem trueValue_log2_sound (n : Bool) (c : Nat) (e : Int) (tn : Bool) (t : Sci
 
 theorem trueValue_log10_sound (n : Bool) (c : Nat) (e : Int) (tn : Bool) (t : Sci) (hc0 : c ≠ 0)
     (hok : LogOk (c : ℚ) e) (h : trueValue .log10 n c e = some (tn, t)) :
-    ∃ T : ℝ, T ∈ₛ t ∧ Real.logb 10 (X n c e) = if tn then -T else T := by
+    ∃ T : ℝ, 0 < T ∧ T ∈ₛ t ∧ Real.logb 10 (X n c e) = if tn then -T else T := by
   rw [trueValue_log10_eq] at h
   split at h
   · exact absurd h (by simp)
@@ -151,7 +155,7 @@ theorem trueValue_log1p_sound (n : Bool) (c : Nat) (e : Int) (tn : Bool) (t : Sc
     (hc0 : c ≠ 0) (hc : c < 10 ^ 35) (hdom : n = true → |X n c e| < 1)
     (hok1 : LogOk (c : ℚ) e) (hok2 : LogOk (1 + (Val.fin n c e).toRat) 0)
     (h : trueValue .log1p n c e = some (tn, t)) :
-    ∃ T : ℝ, T ∈ₛ t ∧ Real.log (1 + X n c e) = if tn then -T else T := by
+    ∃ T : ℝ, 0 < T ∧ T ∈ₛ t ∧ Real.log (1 + X n c e) = if tn then -T else T := by
   rw [trueValue_log1p_eq] at h
   simp only at h
   have hnd := ndigits_le_35 hc0 hc
@@ -173,13 +177,20 @@ theorem trueValue_log1p_sound (n : Bool) (c : Nat) (e : Int) (tn : Bool) (t : Sc
     have hAu : 2 * ((c : ℝ) * (10 : ℝ) ^ e) ≤ (10 : ℝ) ^ (-39 : Int) :=
       le_trans (mul_le_mul_of_nonneg_left (le_trans hXlt.le h2) (by norm_num)) h3
     generalize hu : (10 : ℝ) ^ (-39 : Int) = u at *
+    have hApos : (0 : ℝ) < (c : ℝ) * (10 : ℝ) ^ e := by
+      have : (0 : ℝ) < (c : ℝ) := by exact_mod_cast Nat.pos_of_ne_zero hc0
+      positivity
+    have hupos : (0 : ℝ) < u := by rw [← hu]; positivity
     cases n
     · obtain ⟨b1, b2⟩ := log1p_tiny_pos hA0 (by linarith) hu1
-      refine ⟨Real.log (1 + X false c e), ?_, by simp⟩
+      refine ⟨Real.log (1 + X false c e), ?_, ?_, by simp⟩
+      · rw [X_eq]; simp only [Bool.false_eq_true, if_false]
+        exact Real.log_pos (by linarith)
       rw [X_eq]; simp only [Bool.false_eq_true, if_false]
       apply sciMem_rel hu <;> nlinarith
     · obtain ⟨b1, b2⟩ := log1p_tiny_neg hA0 hAu hu1
-      refine ⟨-Real.log (1 + X true c e), ?_, by simp⟩
+      refine ⟨-Real.log (1 + X true c e), ?_, ?_, by simp⟩
+      · rw [X_eq]; simp only [if_true, ← sub_eq_add_neg]; linarith
       rw [X_eq]; simp only [if_true, ← sub_eq_add_neg]
       apply sciMem_rel hu <;> nlinarith
   rename_i h40
@@ -199,7 +210,8 @@ theorem trueValue_log1p_sound (n : Bool) (c : Nat) (e : Int) (tn : Bool) (t : Sc
         have hv := log_call_sound (n := false) hc0 hok1 hl
         have hXv : X false c e = (c : ℝ) * (10 : ℝ) ^ e := by rw [X_eq]; simp
         have hXpos : 0 < X false c e := by rw [hXv]; linarith
-        refine ⟨Real.log (1 + X false c e), ⟨Real.log (1 + X false c e), ?_, by simp⟩, by simp⟩
+        refine ⟨Real.log (1 + X false c e), Real.log_pos (by linarith),
+          ⟨Real.log (1 + X false c e), ?_, by simp⟩, by simp⟩
         -- log(1+X) = log X + log(1 + 1/X)
         have hsplit : Real.log (1 + X false c e) = Real.log (X false c e) + Real.log (1 + 1 / X false c e) := by
           rw [← Real.log_mul hXpos.ne' (by positivity)]
